@@ -24,9 +24,12 @@ type fakeRedis struct {
 	mu    sync.Mutex
 	data  map[string]redisVal
 	delay atomic.Int64 // nanoseconds per SET
-	sets  atomic.Int64
-	gets  atomic.Int64
-	hits  atomic.Int64
+	// getPlan: delays for the next GETs (one entry per GET, in order; the server answers in order, so a delayed
+	// reply holds back the ones behind it)
+	getPlan chan time.Duration
+	sets    atomic.Int64
+	gets    atomic.Int64
+	hits    atomic.Int64
 }
 
 type redisVal struct {
@@ -39,7 +42,7 @@ func newFakeRedis() *fakeRedis {
 	if err != nil {
 		panic(err)
 	}
-	r := &fakeRedis{l: l, data: map[string]redisVal{}}
+	r := &fakeRedis{l: l, data: map[string]redisVal{}, getPlan: make(chan time.Duration, 8)}
 	go func() {
 		for {
 			c, err := l.Accept()
@@ -108,6 +111,12 @@ func (r *fakeRedis) serve(c net.Conn) {
 		case "PING":
 			bw.WriteString("+PONG\r\n")
 		case "GET":
+			select {
+			case d := <-r.getPlan:
+				bw.Flush()
+				time.Sleep(d)
+			default:
+			}
 			r.gets.Add(1)
 			r.mu.Lock()
 			v, ok := r.data[string(args[1])]
